@@ -38,7 +38,7 @@ func genC01(seed uint64, tier string) Scenario {
 				s.Scripts[cid] = genScript(g, sizeClass)
 				text = callFrame(iface+"."+g.Pick("Ping", "M", "Test01", "Ünï"), withCid(cid, g.ParamsObject(sizeClass())), more, oneway, upgrade, g)
 			case k < 13: // unknown interface
-				text = callFrame(g.Pick("no.such.iface", "a.b.c.d", "org.varlink.servic", "x")+".Method", g.maybeParams(0), more, oneway, upgrade, g)
+				text = callFrame(g.Pick("no.such.iface", "a.b.c.d", "org.varlink.servic", "x")+".Method", g.callParams(), more, oneway, upgrade, g)
 			case k < 14: // no interface part
 				text = callFrame(g.Pick("", "Method", ".Method", "."), g.maybeParams(0), more, oneway, upgrade, g)
 			case k < 16:
@@ -59,7 +59,7 @@ func genC01(seed uint64, tier string) Scenario {
 				}
 				text = callFrame("org.varlink.service.GetInterfaceDescription", p, more, oneway, upgrade, g)
 			default:
-				text = callFrame("org.varlink.service."+g.Pick("Nope", "getInfo", "GetInfo2", ""), g.maybeParams(0), more, oneway, upgrade, g)
+				text = callFrame("org.varlink.service."+g.Pick("Nope", "getInfo", "GetInfo2", ""), g.callParams(), more, oneway, upgrade, g)
 			}
 			cs.Frames = append(cs.Frames, FrameSpec{Cid: cid, Text: text})
 		}
